@@ -213,6 +213,34 @@ type gateStore struct {
 	key     string
 	hit     chan struct{}
 	release chan struct{}
+	// the same for the next Get of a key: the caller stops BEFORE it reads
+	getKey     string
+	getHit     chan struct{}
+	getRelease chan struct{}
+}
+
+func (g *gateStore) armGet(key string) (hit <-chan struct{}, release func()) {
+	g.mu.Lock()
+	defer g.mu.Unlock()
+	g.getKey, g.getHit, g.getRelease = key, make(chan struct{}), make(chan struct{})
+	rel := g.getRelease
+	var once sync.Once
+	return g.getHit, func() { once.Do(func() { close(rel) }) }
+}
+
+func (g *gateStore) Get(key string) (any, error) {
+	g.mu.Lock()
+	var rel chan struct{}
+	if g.getKey != "" && key == g.getKey {
+		g.getKey = ""
+		rel = g.getRelease
+		close(g.getHit)
+	}
+	g.mu.Unlock()
+	if rel != nil {
+		<-rel
+	}
+	return g.Storage.Get(key)
 }
 
 func (g *gateStore) arm(key string) (hit <-chan struct{}, release func()) {
@@ -410,7 +438,7 @@ func parseCase(s string) (c *caseT, err error) {
 	} else if i < len(t) {
 		expect("late")
 		c.late = next()
-		if c.late != "bridge" && c.late != "route" && c.late != "remote" && c.late != "window" {
+		if c.late != "bridge" && c.late != "route" && c.late != "remote" && c.late != "window" && c.late != "early" {
 			panic("bad late " + c.late)
 		}
 		c.lateMid = next()
@@ -920,6 +948,11 @@ func runCaseInner(c *caseT) string {
 		if m, ok := final[c.tsMid]; ok {
 			s := m
 			s.active, s.revoked, s.expired = true, false, 0
+			if s.listen == 0 {
+				// a mapping the server itself listens on has no listen client that could open the tunnel over the
+				// wire: for the set-up phase only it belongs to a stand-in client; it is given its listed shape below
+				s.listen = 901
+			}
 			setup = &s
 		} else {
 			setup = &mappingT{id: c.tsMid, listen: 901, target: 902, secret: "tmp-secret", active: true}
@@ -1058,6 +1091,11 @@ func runCaseInner(c *caseT) string {
 	}
 	var gateHit <-chan struct{}
 	releaseGate := func() {}
+	if c.late == "early" {
+		// the dispatcher looks up tunnelBridges, then the routing table (one storage read): holding that read opens
+		// the window in which startSourceBridge of another request registers the bridge and then the route
+		gateHit, releaseGate = w.gs.armGet("tunnox:tunnel_waiting:" + tunnelID)
+	}
 	if c.late == "window" {
 		// the requester's acknowledgement is written after the dispatcher's own bridge/route look-ups and before
 		// handleTargetBridge / startSourceBridge look again: holding that write opens exactly this window
@@ -1086,7 +1124,7 @@ func runCaseInner(c *caseT) string {
 		}
 		return "err"
 	}
-	if c.late == "window" {
+	if c.late == "window" || c.late == "early" {
 		select {
 		case <-gateHit:
 			lm, listed := final[c.lateMid]
@@ -1230,19 +1268,21 @@ func runCaseInner(c *caseT) string {
 		// Bridge.Start is still launching its second copy goroutine dereferences a nil forwarder — not C04's subject)
 		waitEcho(r, src)
 	}
-	if !data {
-		// anything after the ack that is not another acknowledgement packet counts as traffic (the late cross-node
-		// path acknowledges a second time in forwardToSourceNode)
-		for len(rest) > 0 {
-			a, more := readAck(rest)
-			if a != "ok" && a != "fail" {
+	// how many acknowledgement packets the requester was sent (one TunnelOpen, one acknowledgement: a further one
+	// reaches a client that is already in stream mode as tunnel payload); other bytes after them count as traffic
+	acks := 0
+	for buf := r.cli.snapshot(); len(buf) > 0; {
+		a, more := readAck(buf)
+		if a != "ok" && a != "fail" {
+			if !data && a != "none" {
 				data = true
-				break
 			}
-			rest = more
+			break
 		}
+		acks++
+		buf = more
 	}
-	return fmt.Sprintf("ack %s att %s data %s ret %s", ack, att, b2s(data), ret)
+	return fmt.Sprintf("ack %s acks %d att %s data %s ret %s", ack, acks, att, b2s(data), ret)
 }
 
 // ---------------------------------------------------------------- generators
@@ -1316,7 +1356,7 @@ func lateMatrix() []*caseT {
 		{"F", "", ""}, {"F", "s3cretF", ""}}
 	for _, id := range ids {
 		for _, cr := range creds {
-			for _, kind := range []string{"bridge", "route", "remote", "window"} {
+			for _, kind := range []string{"bridge", "route", "remote", "window", "early"} {
 				for _, mid := range []string{"M", "F"} {
 					out = append(out, &caseT{pl: "ok", hs: id.hs, cid: id.cid, rmid: cr[0], rsec: cr[1], rtok: cr[2],
 						maps: []mappingT{mapM, mapF}, ts: "none", late: kind, lateMid: mid})
@@ -1354,6 +1394,43 @@ func transportMatrix() []*caseT {
 					c.ts, c.tsMid, c.served = "bridge", "M", true
 				case "remote":
 					c.ts, c.tsMid = "remote", "M"
+				}
+				out = append(out, c)
+			}
+		}
+	}
+	return out
+}
+
+// zeroListenMatrix: a mapping the server itself listens on (ListenClientID == 0, e.g. an HTTP-domain mapping made
+// through the management API).  "Client id 0" then equals the mapping's listen client: a connection that is not
+// authenticated (no handshake, refused handshake — which leaves a control-connection record with client id 0 —,
+// a vouching transport without an id) must still be refused.  identity (8) x credential (5) x tunnel state (4).
+func zeroListenMatrix() []*caseT {
+	var out []*caseT
+	mapZ := mappingT{id: "Z", listen: 0, target: 22, secret: "s3cretZ", active: true}
+	type ident struct {
+		hs      int
+		cid     int64
+		asserts bool
+		scid    int64
+		temp    bool
+	}
+	ids := []ident{{0, 0, false, 0, false}, {2, 11, false, 0, false}, {2, 0, false, 0, false}, {1, 11, false, 0, false},
+		{1, 22, false, 0, false}, {1, 33, false, 0, false}, {0, 0, true, 0, true}, {2, 22, true, 0, true}}
+	creds := [][3]string{{"Z", "", ""}, {"Z", "s3cretZ", ""}, {"Z", "wrong", ""}, {"", "", ""}, {"F", "", ""}}
+	for _, id := range ids {
+		for _, cr := range creds {
+			for _, ts := range []string{"none", "waiting", "served", "remote"} {
+				c := &caseT{pl: "ok", hs: id.hs, cid: id.cid, asserts: id.asserts, scid: id.scid, temp: id.temp,
+					rmid: cr[0], rsec: cr[1], rtok: cr[2], maps: []mappingT{mapZ, mapF}, ts: "none"}
+				switch ts {
+				case "waiting":
+					c.ts, c.tsMid = "bridge", "Z"
+				case "served":
+					c.ts, c.tsMid, c.served = "bridge", "Z", true
+				case "remote":
+					c.ts, c.tsMid = "remote", "Z"
 				}
 				out = append(out, c)
 			}
@@ -1416,6 +1493,9 @@ func randomCases(r *vc.Rand, n int) []*caseT {
 		}
 		for j := 0; j < k; j++ {
 			m := mappingT{id: ids[perm[j]], listen: vc.Pick(r, clients), target: vc.Pick(r, clients), secret: vc.Pick(r, secrets), active: true}
+			if r.Intn(10) == 0 {
+				m.listen = 0 // a mapping the server itself listens on
+			}
 			switch r.Intn(16) {
 			case 0:
 				m.revoked, m.active = true, false
@@ -1508,14 +1588,14 @@ func randomCases(r *vc.Rand, n int) []*caseT {
 			c.ts, c.tsMid, c.served = "none", "", false
 		} else if c.ts == "none" && !c.asserts && r.Intn(2) == 0 {
 			// the tunnel appears while the request polls
-			c.late = []string{"bridge", "window", "route", "remote", "window"}[r.Intn(5)]
+			c.late = []string{"bridge", "window", "route", "remote", "window", "early"}[r.Intn(6)]
 			c.lateMid = vc.Pick(r, ids)
-			if c.late == "bridge" || c.late == "window" {
+			if c.late == "bridge" || c.late == "window" || c.late == "early" {
 				kind := c.late
 				// a bridge can only be opened by the rightful listen client of a usable, listed mapping
 				c.late = ""
 				for _, x := range c.maps {
-					if x.active && !x.revoked && x.expired != 1 && (x.id == c.lateMid || c.late == "") {
+					if x.active && !x.revoked && x.expired != 1 && x.listen != 0 && (x.id == c.lateMid || c.late == "") {
 						c.late, c.lateMid = kind, x.id
 					}
 				}
@@ -1625,6 +1705,11 @@ func main() {
 			lines = append(lines, c.String())
 		}
 		runAll(out, lines, "config-matrix")
+		lines = nil
+		for _, c := range zeroListenMatrix() {
+			lines = append(lines, c.String())
+		}
+		runAll(out, lines, "zero-listen-matrix")
 		runAll(out, []string{"e2e"}, "e2e")
 		runAll(out, []string{"rmw usage", "rmw stats", "rmw status"}, "rmw")
 		n := 600
